@@ -273,6 +273,7 @@ func TestC06(t *testing.T) {
 		map[bool]string{true: "", false: "; quick tier: 3-entry lists only for piece-length{1,16384,2^32-1} x pieces-length{20,40}"}[thorough] + "), plus one-dimensional deviations from accepted bases (path shapes, wrong types, " +
 		"duplicate keys, every key permutation, name variants, extra keys, malformed keys, truncations at every byte), list and dict nesting of depth " + map[bool]string{true: "{1,10,10^3,10^5,10^6}", false: "{1,10,10^3,10^4}"}[thorough] + " at 11 positions " +
 		"(terminated and not), strings declaring {exact,+1,2^31-1,2^24,2^31,-1,...} bytes with a short body at 9 positions; every case through metainfo.New, Session.parseMetaInfo, " +
+		"(depth-10^6 nests: through New, parseMetaInfo, NewInfo(utf8,pad), parseInfo v3, Session resume v3 and AddTorrent only) " +
 		"metainfo.NewInfo x 4 flag pairs, Session.parseInfo v1..v3, a real Session's resume loader (v1..v3) and AddTorrent(Stopped) under tight limits; every distinct accepted geometry " +
 		"(PieceLength, NumPieces, Length, file lengths and padding flags) through allocator+piece.NewPieces+CalculateBlocks in an rlimited subprocess. Non-trivial = got past bencode syntax in at least one entry point (accepted or a semantic error); distinct = such inputs."
 	rep.Assumptions = []string{
@@ -461,6 +462,9 @@ func TestC06(t *testing.T) {
 				for _, w := range wrappers() {
 					if w.needInfo && c.Info == nil {
 						continue
+					}
+					if deepest(c) && !(w.name == "New" || w.name == "parseMetaInfo" || w.name == "NewInfo/utf8=1,pad=1" || strings.HasPrefix(w.name, "parseInfo/v3")) {
+						continue // depth 10^6: one representative per decoding path (the flags and versions do not reach the decoder)
 					}
 					j := job{Kind: "parse", Cases: []caseSpec{c}, IDs: []int{i}, Wrapper: w.name}
 					if c.Class == "declen" {
@@ -726,6 +730,9 @@ func TestC06(t *testing.T) {
 					if only != "add" && c.Info == nil {
 						continue
 					}
+					if deepest(c) && (only == "resume/v1" || only == "resume/v2") {
+						continue
+					}
 					hj := job{Kind: "session", Cases: []caseSpec{c}, IDs: []int{i}, Only: only}
 					if c.Class == "declen" {
 						hugeJobs = append(hugeJobs, hj)
@@ -884,6 +891,11 @@ func removeStale(dir, prefix string) {
 			os.RemoveAll(dir + "/" + e.Name())
 		}
 	}
+}
+
+// deepest reports the depth-10^6 nesting cases (the most expensive members of the lattice).
+func deepest(c caseSpec) bool {
+	return c.Class == "nest" && strings.Contains(c.Desc, "depth 1000000 ")
 }
 
 func topHist(h map[string]int64, n int) []string {
